@@ -44,7 +44,7 @@ func runLongBatch(cfg Cfg, cs longBatchCase) []Violation {
 		}
 		want := map[string]string{} // K -> value class, of everything that must be stored
 		for i := 0; i < cs.Stored; i++ {
-			o := &Wide{A: i % 3, B: wideB(i % 3), U: i, Seq: -1 - i, K: fmt.Sprintf("stored%d", i)}
+			o := &Wide{A: i % 3, B: wideB(i % 3), U: i, Seq: -1 - i, K: fmt.Sprintf("stored%d", i), N: -1 - i}
 			if err := db.InsertOrUpdate(o); err != nil {
 				fail("setup", "insert failed: "+err.Error())
 				return
@@ -54,7 +54,7 @@ func runLongBatch(cfg Cfg, cs longBatchCase) []Violation {
 		objs := make([]sod.Object, cs.N)
 		ws := make([]*Wide, cs.N)
 		for i := 0; i < cs.N; i++ {
-			w := &Wide{A: i % 3, B: wideB(i % 3), U: i, Seq: i, K: fmt.Sprintf("m%d", i)}
+			w := &Wide{A: i % 3, B: wideB(i % 3), U: i, Seq: i, K: fmt.Sprintf("m%d", i), N: i}
 			if i == cs.Pos {
 				switch cs.Kind {
 				case "dup-first":
